@@ -408,6 +408,9 @@ def run_real(case):
                                                     any(i in started for i in _phase_ids(g['td'])))
     if entered:
       need += ['need:%d' % i for i in _phase_ids(g['td'])]
+    elif sids and not all(i in ended_ok for i in sids):
+      # the setup did not complete (a setup phase never ran, raised or was killed): the group is not entered
+      need += ['noneed:%d' % i for i in _phase_ids(g['td'])]
   rec_facts = []
   if rec is not None:
     for p in rec.phases:
